@@ -8,7 +8,7 @@
 import os, json, shutil, collections
 import qv, hist, seqrun, common, devsim
 
-CONE = ['Model/Dev.v', 'Proofs/DevProps.v', 'Props/C08.v']
+CONE = ['Model/Dev.v', 'Proofs/DevProps.v', 'Model/Alloc.v', 'Proofs/AllocProps.v', 'Props/C08.v']
 
 
 def stress_ops(rng, g):
@@ -77,6 +77,85 @@ def gen_stress(rng, d, cid):
     return g, stress_ops(rng, g), None, False, False
 
 
+
+SCAN_IMPORTS = """From Coq Require Import NArith List Bool Arith.
+From Q.Model Require Import Alloc.
+From Q.Exec Require Import C08Exec.
+Import ListNotations.
+"""
+
+
+def scan_correspondence(rng, n):
+    """RefBlock::get_free_range / get_tail_free_range / alloc_range of the compiled code vs Model/Alloc.v on random slices"""
+    d = qv.workdir('c08scan')
+    qs = []
+    for _ in range(n):
+        ro = rng.choice([0, 1, 2, 3, 4, 4, 5, 6])
+        nbytes = rng.choice([8, 8, 16, 64])
+        bits = 1 << ro
+        nent = nbytes * 8 // bits
+        dens = rng.choice([0.0, 0.1, 0.4, 0.8, 1.0])
+        vals = [(rng.choice([1, 1, 2]) if rng.random() < dens else 0) for _ in range(nent)]
+        if ro == 0:
+            vals = [min(v, 1) for v in vals]
+        if rng.random() < 0.3:
+            k = rng.randrange(0, nent)
+            for i in range(k, nent):
+                vals[i] = 0          # a free tail
+        # pack big-endian per the format
+        if bits >= 8:
+            raw = b''.join(v.to_bytes(bits // 8, 'big') for v in vals)
+        else:
+            per = 8 // bits
+            raw = bytearray(nbytes)
+            for i, v in enumerate(vals):
+                raw[i // per] |= v << ((i % per) * bits)
+            raw = bytes(raw)
+        start = rng.randrange(0, nent)
+        count = rng.randrange(0, nent - start + 1) if rng.random() < 0.8 else rng.choice([1, 2, nent - start])
+        count = min(count, nent - start)     # the caller's precondition (try_alloc_from_rb_slice checks it)
+        qs.append((ro, raw, vals, start, count))
+    p = os.path.join(d, 'q.txt')
+    open(p, 'w').write(''.join('rbscan %d %s %d %d\n' % (ro, raw.hex(), start, count) for ro, raw, vals, start, count in qs))
+    rc, out, err = qv.run_harness(['codec', p], timeout=300)
+    lines = [l for l in out.split('\n') if l.startswith('rbscan ')]
+    shutil.rmtree(d, ignore_errors=True)
+    finds = []
+    if len(lines) != len(qs):
+        return [('scan', 'rbscan', 'the harness answered %d of %d scan queries: %s' % (len(lines), len(qs), err[-200:]), '')], 0
+    terms = []
+    keep = []
+
+    def rng_opt(x):
+        if x == '-':
+            return 'None'
+        a, b = x.split('..')
+        return '(Some (%s, %s))' % (a, b)
+    for (ro, raw, vals, start, count), ln in zip(qs, lines):
+        if 'panic' in ln:
+            finds.append(('scan', 'rbscan', 'the allocator scan panics on slice %s (refcount_order %d) start %d count %d' % (raw.hex(), ro, start, count), ln))
+            continue
+        kv = dict(x.split('=', 1) for x in ln.split()[1:])
+        got = [x for x in kv['vals'].split(',') if x]
+        terms.append('scan_verdict [%s]%%N %d %d %s %s %s [%s]%%N' % ('; '.join(map(str, vals)), start, count, rng_opt(kv['fr']), rng_opt(kv['tail']),
+                                                                   'true' if kv['alloc'] == '1' else 'false', '; '.join(got)))
+        keep.append((ro, raw, vals, start, count, ln))
+    body = ''
+    CH = 200
+    for i in range(0, len(terms), CH):
+        body += 'Eval vm_compute in [%s].\n' % ';\n '.join(terms[i:i + CH])
+    rc, cout = qv.coq_eval('c08scan', body, SCAN_IMPORTS, timeout=600)
+    if rc != 0:
+        return [('scan', 'rbscan', 'the model evaluation failed: ' + cout[-300:], '')], len(qs)
+    res = [x for l in qv.parse_N_list(cout) for x in l]
+    what = {1: 'get_free_range', 2: 'get_tail_free_range', 3: 'alloc_range'}
+    for r, (ro, raw, vals, start, count, ln) in zip(res, keep):
+        if r:
+            finds.append(('scan', 'rbscan', '%s of the compiled code differs from the model on refcounts %s (refcount_order %d), start %d count %d: %s' % (
+                what.get(r, '?'), vals, ro, start, count, ln[:200]), 'rbscan %d %s %d %d' % (ro, raw.hex(), start, count)))
+    return finds, len(qs)
+
+
 def reuse_cases(rng, n):
     cases = []
     for k in range(n):
@@ -113,6 +192,8 @@ def run(tier, seed, replay):
     finds, stats, d1 = devsim.run_sim(rng, n, tag='c08g')
     finds2, stats2, d2 = devsim.run_sim(rng, n // 2, tag='c08s', gen=gen_stress)
     finds = [f for f in finds + finds2 if 'C08' in devsim.CLASS_PROPS.get(f[0], ())]
+    sfinds, nscan = scan_correspondence(rng, 400 if tier == 'quick' else 6000)
+    finds += sfinds
     # reuse bound
     d3 = qv.workdir('c08r')
     rcases = reuse_cases(rng, 12 if tier == 'quick' else 120)
@@ -147,7 +228,7 @@ def run(tier, seed, replay):
         st['stress_' + k] = v
     cov = {'evaluations': stats['cases'] + stats2['cases'] + len(rcases), 'distinct_nontrivial': stats['cases'] + stats2['cases'],
            'rule': 'general sequential histories (fresh and independently built images) and allocator-stress histories (fill, scattered discards, multi-cluster writes; refblock slices of 512 bytes so that runs cross slice boundaries; refcount widths 8..64 bit) replayed through the extracted device model with the library\'s own allocation choices; file refcounts compared with the model at every flush; write/discard cycles over a fixed working set for the reuse bound',
-           'samples': [], 'model_steps': stats['model_steps'] + stats2['model_steps'], 'distribution': st, 'findings_by_class': dict(seen)}
+           'samples': [], 'model_steps': stats['model_steps'] + stats2['model_steps'], 'allocator_scan_queries': nscan, 'distribution': st, 'findings_by_class': dict(seen)}
     return common.finish('C08', tier, seed, 'proof', gate, cov, t, violations, known,
                          ['the model is hand-written (coq/Model/Dev.v); it is tied to the library only by this correspondence on sampled histories',
                           'concurrent allocation is not modelled here (see C06)'],
